@@ -1,0 +1,15 @@
+//go:build verif
+
+package block
+
+// Contracts for the verif build tag (comment-only; see /verif/DESIGN.md).
+
+//@ import io github.com/nspcc-dev/neo-go/pkg/io
+
+// Safety frame of the header decoder as used by other decoders (assumed here; the header
+// codec itself is not yet under contract).
+//@ func (*Header).DecodeBinary
+//@ assumed
+//@ requires b != nil && io.validR(br)
+//@ modifies *b, br.Err, br.uv, br.r.pos
+//@ ensures old(br.r.pos) <= br.r.pos && io.validR(br)
